@@ -4,6 +4,7 @@ use crate::core::Prop;
 pub mod c10;
 pub mod prog;
 pub mod c11;
+pub mod c12;
 pub mod c13;
 pub mod c14;
 pub mod c15;
@@ -19,7 +20,7 @@ pub mod c07;
 pub mod c09;
 
 pub fn all() -> Vec<&'static dyn Prop> {
-    vec![&prog::C01, &prog::C02, &prog::C03, &prog::C08, &c04::C04, &c05::C05, &c06::C06, &c07::C07, &c09::C09, &c10::C10, &c11::C11, &c13::C13, &c14::C14, &c15::C15, &c16::C16, &c17::C17, &c18::C18, &c19::C19, &c20::C20]
+    vec![&prog::C01, &prog::C02, &prog::C03, &prog::C08, &c04::C04, &c05::C05, &c06::C06, &c07::C07, &c09::C09, &c10::C10, &c11::C11, &c12::C12, &c13::C13, &c14::C14, &c15::C15, &c16::C16, &c17::C17, &c18::C18, &c19::C19, &c20::C20]
 }
 
 pub fn find(id: &str) -> Option<&'static dyn Prop> {
